@@ -231,154 +231,6 @@ Proof.
     exact (may_overlap_sound l1 l2 M None k D1 D2).
 Qed.
 
-(* ------------------------------------------------------------------ bounds of index expressions, superset locations *)
-Lemma min_opt_le : forall a b u v, min_opt a b = Some u -> (forall x, a = Some x -> v <= x) -> (forall y, b = Some y -> v <= y) -> v <= u.
-Proof.
-  intros [x|] [y|] u v H Ha Hb; cbn in H; inversion H; subst.
-  - specialize (Ha x eq_refl). specialize (Hb y eq_refl). lia.
-  - apply Ha. reflexivity.
-  - apply Hb. reflexivity.
-Qed.
-
-Lemma asserted_lt_sound : forall F c st x, all_hold c st F -> forall u, asserted_lt F x = Some u -> c x mod W <= u.
-Proof.
-  intros F c st x HF. unfold asserted_lt.
-  assert (G : forall l acc, (forall g, In g l -> In g F) -> (forall u, acc = Some u -> c x mod W <= u) ->
-              forall u, fold_left (fun acc g =>
-                match g with
-                | FNz (OVar c0) =>
-                    match find_def F c0 with
-                    | Some (op, [OLit n; OVar y]) => if (op =s "lt") && N.eqb x y then min_opt acc (Some (n mod W - 1)) else acc
-                    | _ => acc
-                    end
-                | _ => acc
-                end) l acc = Some u -> c x mod W <= u).
-  { induction l as [|g t IH]; intros acc Hin Hacc u H; cbn [fold_left] in H; [apply Hacc; exact H|].
-    eapply IH; [intros g' Hg'; apply Hin; right; exact Hg'| |exact H].
-    intros u' Hu'. destruct g as [| |[?|c0|?]]; try (apply Hacc; exact Hu').
-    destruct (find_def F c0) as [[op [|[n|?|?] [|[?|y|?] [|? ?]]]]|] eqn:D; try (apply Hacc; exact Hu').
-    destruct ((op =s "lt") && N.eqb x y) eqn:E; [|apply Hacc; exact Hu'].
-    apply andb_true_iff in E. destruct E as [E1 E2]. apply seqb_eq in E1. apply N.eqb_eq in E2. subst op y.
-    apply find_def_in in D. destruct (HF _ D) as [_ HD]. unfold out1 in HD. cbn [map oval] in HD.
-    rewrite (ex_lt X A asz HE) in HD.
-    pose proof (HF _ (Hin _ (or_introl eq_refl))) as Nz. cbn [holds oval] in Nz.
-    eapply (min_opt_le _ _ _ _ Hu'); [exact Hacc|]. intros y0 Hy0. inversion Hy0; subst y0.
-    destruct (c x mod W <? n mod W) eqn:L; [apply Z.ltb_lt in L; lia|].
-    exfalso. apply Nz. rewrite <- HD. reflexivity. }
-  intros u H. eapply (G F None); [auto|discriminate|exact H].
-Qed.
-
-Lemma ubound_sound : forall n F c st o u, all_hold c st F -> ubound n F o = Some u -> oval c o <= u.
-Proof.
-  induction n; intros F c st o u HF H; destruct o as [v|x|l]; cbn [ubound] in H; try discriminate;
-    try (inversion H; subst; cbn; lia).
-  eapply (min_opt_le _ _ _ _ H).
-  - intros y Hy. cbn [oval]. eapply asserted_lt_sound; eassumption.
-  - intros y Hy. destruct (find_def F x) as [[op a]|] eqn:D; [|discriminate].
-    apply find_def_in in D. destruct (HF _ D) as [_ HD]. unfold out1 in HD. change (c x mod W) with (oval c (OVar x)) in HD.
-    destruct (op =s "assign") eqn:E1.
-    { apply seqb_eq in E1. subst op. destruct a as [|q [|? ?]]; try discriminate.
-      cbn [map] in HD. rewrite (ex_assign X A asz HE) in HD. rewrite hd_mod_small in HD by apply oval_range.
-      rewrite <- HD. eapply IHn; eassumption. }
-    destruct (op =s "mod") eqn:E2.
-    { apply seqb_eq in E2. subst op. destruct a as [|[m|?|?] [|a2 [|? ?]]]; try discriminate.
-      destruct (0 <? m mod W) eqn:Em; [|discriminate]. apply Z.ltb_lt in Em. inversion Hy; subst y.
-      cbn [map oval] in HD. rewrite (ex_mod X A asz HE) in HD. cbn [oval]. rewrite <- HD.
-      destruct (m mod W =? 0) eqn:Ez; [apply Z.eqb_eq in Ez; lia|].
-      pose proof (Z.mod_pos_bound (oval c a2) (m mod W) Em) as B. pose proof (Z.mod_pos_bound m W W_pos) as Bm.
-      cbn [hd]. rewrite Z.mod_small by lia. lia. }
-    destruct (op =s "shl") eqn:E3.
-    { apply seqb_eq in E3. subst op. destruct a as [|q [|[s|?|?] [|? ?]]]; try discriminate.
-      destruct (ubound n F q) as [uq|] eqn:Uq; [|discriminate].
-      destruct (s mod W <? 256) eqn:Es; [|discriminate].
-      destruct (uq * 2 ^ (s mod W) <? W) eqn:Ew; [|discriminate]. apply Z.ltb_lt in Ew. inversion Hy; subst y.
-      pose proof (IHn F c st q uq HF Uq) as Bq. pose proof (oval_range c q) as Rq.
-      pose proof (Z.mod_pos_bound s W W_pos) as Bs.
-      assert (Pp : 0 < 2 ^ (s mod W)) by (apply Z.pow_pos_nonneg; lia).
-      cbn [map oval] in HD. rewrite (ex_shl X A asz HE) in HD. rewrite Es in HD. cbn [oval]. rewrite <- HD. cbn [hd].
-      rewrite Z.mod_mod by (pose proof W_pos; lia).
-      assert (oval c q * 2 ^ (s mod W) <= uq * 2 ^ (s mod W)) by nia.
-      rewrite Z.mod_small by nia. exact H0. }
-    destruct (op =s "mul") eqn:E4.
-    { apply seqb_eq in E4. subst op. destruct a as [|q1 [|q2 [|? ?]]]; try discriminate.
-      destruct (ubound n F q1) as [u1|] eqn:U1; [|discriminate]. destruct (ubound n F q2) as [u2|] eqn:U2; [|discriminate].
-      destruct (u1 * u2 <? W) eqn:Ew; [|discriminate]. apply Z.ltb_lt in Ew. inversion Hy; subst y.
-      pose proof (IHn F c st q1 u1 HF U1) as B1. pose proof (IHn F c st q2 u2 HF U2) as B2.
-      pose proof (oval_range c q1) as R1. pose proof (oval_range c q2) as R2.
-      cbn [map] in HD. rewrite (ex_mul X A asz HE) in HD. rewrite <- HD. cbn [hd].
-      rewrite Z.mod_mod by (pose proof W_pos; lia).
-      assert (oval c q2 * oval c q1 <= u1 * u2) by nia.
-      rewrite Z.mod_small by nia. exact H0. }
-    destruct (op =s "add") eqn:E5; [|discriminate].
-    apply seqb_eq in E5. subst op. destruct a as [|q1 [|q2 [|? ?]]]; try discriminate.
-    destruct (ubound n F q1) as [u1|] eqn:U1; [|discriminate]. destruct (ubound n F q2) as [u2|] eqn:U2; [|discriminate].
-    destruct (u1 + u2 <? W) eqn:Ew; [|discriminate]. apply Z.ltb_lt in Ew. inversion Hy; subst y.
-    pose proof (IHn F c st q1 u1 HF U1) as B1. pose proof (IHn F c st q2 u2 HF U2) as B2.
-    pose proof (oval_range c q1) as R1. pose proof (oval_range c q2) as R2.
-    cbn [map] in HD. rewrite (ex_add X A asz HE) in HD. rewrite <- HD. cbn [hd].
-    rewrite Z.mod_mod by (pose proof W_pos; lia). rewrite Z.mod_small by lia. lia.
-Qed.
-
-Lemma try_bp_inv : forall F b i id o u, try_bp F asz b i = Some (id, o, u) ->
-  resolve RFUEL F asz b = (Some id, Some o) /\ ubound (UFUEL_OF F) F i = Some u.
-Proof.
-  intros F b i id o u T. unfold try_bp in T.
-  remember (resolve RFUEL F asz b) as rb eqn:Erb. remember (ubound (UFUEL_OF F) F i) as ub eqn:Eub. clear Erb Eub.
-  destruct rb as [[id1|] [o1|]]; try discriminate. destruct ub as [u1|]; [|discriminate].
-  injection T as -> -> ->. split; reflexivity.
-Qed.
-
-Lemma bp_core : forall F c st b i id o u v, all_hold c st F ->
-  resolve RFUEL F asz b = (Some id, Some o) -> ubound (UFUEL_OF F) F i = Some u -> v = (oval c b + oval c i) mod W ->
-  0 <= o <= asz id /\ exists d, 0 <= d <= u /\ (A id + o + d < W -> v = A id + o + d).
-Proof.
-  intros F c st b i id o u v HF Rb Ui Hv.
-  pose proof (resolve_sound RFUEL F c st b HF) as R. rewrite Rb in R. unfold res_ok in R. destruct R as [R1 R2].
-  unfold base in R1.
-  pose proof (ubound_sound (UFUEL_OF F) F c st i u HF Ui) as Bi. pose proof (oval_range c i) as Ri.
-  split; [exact R2|]. exists (oval c i). split; [lia|]. intros Lt. rewrite Hv.
-  destruct (ex_A X A asz HE id) as [A1 _]. rewrite Z.mod_small by lia. lia.
-Qed.
-
-Lemma bounded_ptr_sound : forall F c st p id o u, all_hold c st F -> bounded_ptr F asz p = Some (id, o, u) ->
-  0 <= o <= asz id /\ exists d, 0 <= d <= u /\ (A id + o + d < W -> oval c p = A id + o + d).
-Proof.
-  intros F c st p id o u HF H. unfold bounded_ptr in H. destruct p as [?|x|?]; try discriminate.
-  destruct (find_def F x) as [[op [|q1 [|q2 [|? ?]]]]|] eqn:D; try discriminate.
-  destruct (op =s "add") eqn:E; [|discriminate]. apply seqb_eq in E. subst op.
-  apply find_def_in in D. destruct (HF _ D) as [_ HD]. unfold out1 in HD. cbn [map] in HD.
-  rewrite (ex_add X A asz HE) in HD. rewrite hd_mod_small in HD by (apply Z.mod_pos_bound; exact W_pos).
-  destruct (try_bp F asz q1 q2) as [r1|] eqn:T1.
-  - inversion H; subst r1. destruct (try_bp_inv _ _ _ _ _ _ T1) as [Rb Ui].
-    apply (bp_core F c st q1 q2 id o u _ HF Rb Ui). rewrite <- HD. f_equal. lia.
-  - destruct (try_bp_inv _ _ _ _ _ _ H) as [Rb Ui].
-    apply (bp_core F c st q2 q1 id o u _ HF Rb Ui). rewrite <- HD. reflexivity.
-Qed.
-
-Lemma sym_locU_sound : forall F c st args r s k, all_hold c st F ->
-  in_cr (conc_range (map (oval c) args) r) s k = true ->
-  sr_sp r = s /\ aden (sym_locU F asz args r) k.
-Proof.
-  intros F c st args r s k HF H. pose proof (sym_loc_sound F c st args r s k HF H) as [Sp Ad]. split; [exact Sp|].
-  unfold sym_locU.
-  destruct (ml_offset (sym_loc F asz args r)) eqn:Eo; [exact Ad|].
-  destruct (sr_ptr r) as [i|z] eqn:Ep; [|exact Ad].
-  destruct (ml_size (sym_loc F asz args r)) as [n|] eqn:En; [|exact Ad].
-  destruct (bounded_ptr F asz (aget (OLab 0) args i)) as [[[id o] u]|] eqn:B; [|exact Ad].
-  destruct ((0 <=? n) && (o + u + n <=? asz id)) eqn:Ck; [|exact Ad].
-  apply andb_true_iff in Ck. destruct Ck as [C1 C2]. apply Z.leb_le in C1, C2.
-  destruct (bounded_ptr_sound F c st _ id o u HF B) as [Ro [d [Rd Hp]]].
-  destruct (ex_A X A asz HE id) as [A1 [A2 A3]]. specialize (Hp ltac:(lia)).
-  assert (Sz : sym_size args (sr_size r) = Some n).
-  { unfold sym_loc in En. rewrite Ep in En. destruct (resolve RFUEL F asz (aget (OLab 0) args i)). exact En. }
-  pose proof (sym_size_ok c args (sr_size r) n Sz) as Hn.
-  unfold in_cr, conc_range in H. cbn [cr_sp cr_lo cr_len] in H. rewrite Ep in H. rewrite aget_oval in H. rewrite Hn in H.
-  apply andb_true_iff in H. destruct H as [H H3]. apply andb_true_iff in H. destruct H as [_ H2].
-  apply Z.leb_le in H2. apply Z.ltb_lt in H3.
-  exists (k - A id). cbn [mkml ml_alloca base]. split; [|lia].
-  unfold den. cbn [ml_is_empty ml_size ml_alloca ml_offset mkml]. split; [apply Z.eqb_neq; lia|]. split; [reflexivity|]. lia.
-Qed.
-
 (* ------------------------------------------------------------------ operand equivalence *)
 Lemma list_eqb_vals : forall (e : operand -> operand -> bool) c,
   forall l l', (forall a b, In a l -> e a b = true -> oval c a = oval c b) ->
@@ -570,7 +422,7 @@ Proof.
   apply not_true_is_false. intro E. apply existsb_exists in E. destruct E as [r [Hr Hin]].
   unfold in_cr in Hin. apply andb_true_iff in Hin. destruct Hin as [Hin _]. apply andb_true_iff in Hin. destruct Hin as [Hin _].
   cbn [conc_range cr_sp] in Hin.
-  rewrite forallb_forall in H2. specialize (H2 (sr_sp r, sym_locU F asz iargs r)).
+  rewrite forallb_forall in H2. specialize (H2 (sr_sp r, sym_loc F asz iargs r)).
   unfold wlocs in H2. specialize (H2 (in_map _ _ _ Hr)). cbn [fst] in H2. rewrite Hin in H2. discriminate.
 Qed.
 
@@ -579,11 +431,11 @@ Lemma wr_clear_range : forall F c st sh iargs gargs r' s k, all_hold c st F ->
   in_cr (conc_range (map (oval c) gargs) r') s k = true -> wr sh (map (oval c) iargs) s k = false.
 Proof.
   intros F c st sh iargs gargs r' s k HF H Hin. unfold range_clear in H. apply andb_true_iff in H. destruct H as [H1 H2].
-  destruct (sym_locU_sound F c st gargs r' s k HF Hin) as [Sp' Ad'].
+  destruct (sym_loc_sound F c st gargs r' s k HF Hin) as [Sp' Ad'].
   unfold wr. unfold sp_written in H1. rewrite Sp' in H1. apply negb_true_iff in H1. rewrite H1. cbn [orb].
   apply not_true_is_false. intro E. apply existsb_exists in E. destruct E as [r [Hr Hin2]].
-  destruct (sym_locU_sound F c st iargs r s k HF Hin2) as [Sp Ad].
-  rewrite forallb_forall in H2. specialize (H2 (sr_sp r, sym_locU F asz iargs r)).
+  destruct (sym_loc_sound F c st iargs r s k HF Hin2) as [Sp Ad].
+  rewrite forallb_forall in H2. specialize (H2 (sr_sp r, sym_loc F asz iargs r)).
   unfold wlocs in H2. specialize (H2 (in_map _ _ _ Hr)). cbn [fst snd] in H2.
   rewrite Sp, Sp', sp_eqb_refl in H2. cbn [negb orb] in H2.
   exact (locs_disjoint_sound _ _ k H2 Ad Ad').
